@@ -11,7 +11,7 @@ from collections.abc import Callable
 import logging
 
 from xknx.exceptions import CommunicationError, CouldNotParseKNXIP, IncompleteKNXIPFrame
-from xknx.knxip import HPAI, HostProtocol, KNXIPFrame
+from xknx.knxip import HPAI, HostProtocol, KNXIPFrame, KNXIPHeader
 
 from .ip_transport import KNXIPTransport
 
@@ -86,33 +86,41 @@ class TCPTransport(KNXIPTransport):
         if self._buffer:
             raw = self._buffer + raw
             self._buffer = b""
-        if not raw:
-            return
-        try:
-            knxipframe, next_frame_part = KNXIPFrame.from_knx(raw)
-        except IncompleteKNXIPFrame:
-            self._buffer = raw
-            raw_socket_logger.debug(
-                "Incomplete KNX/IP frame. Waiting for rest: %s", raw.hex()
-            )
-            return
-        except CouldNotParseKNXIP as couldnotparseknxip:
-            knx_logger.debug(
-                "Unsupported KNXIPFrame from %s: %s in %s",
-                self.remote_hpai,
-                couldnotparseknxip.description,
-                raw.hex(),
-            )
-        else:
+        # a single read may carry many frames - parse them one after the other
+        while raw:
+            try:
+                knxipframe, next_frame_part = KNXIPFrame.from_knx(raw)
+            except IncompleteKNXIPFrame:
+                self._buffer = raw
+                raw_socket_logger.debug(
+                    "Incomplete KNX/IP frame. Waiting for rest: %s", raw.hex()
+                )
+                return
+            except CouldNotParseKNXIP as couldnotparseknxip:
+                knx_logger.debug(
+                    "Unsupported KNXIPFrame from %s: %s in %s",
+                    self.remote_hpai,
+                    couldnotparseknxip.description,
+                    raw.hex(),
+                )
+                # skip the frame by its announced length to parse the data after it
+                total_length = int.from_bytes(raw[4:6], "big")
+                if total_length < KNXIPHeader.HEADERLENGTH:
+                    return
+                if len(raw) < total_length:
+                    # wait for the rest of the frame to be skipped
+                    self._buffer = raw
+                    return
+                raw = raw[total_length:]
+                continue
             knx_logger.debug(
                 "Received from %s: %s",
                 self.remote_hpai,
                 knxipframe,
             )
             self.handle_knxipframe(knxipframe, self.remote_hpai)
-        # parse data after current KNX/IP frame
-        if next_frame_part:
-            self.data_received_callback(next_frame_part)
+            # parse data after current KNX/IP frame
+            raw = next_frame_part
 
     async def connect(self) -> None:
         """Connect TCP socket."""
